@@ -250,52 +250,6 @@ def has_empty_level(prefix):
     return any(t.startswith(b'/') or t.endswith(b'/') or b'//' in t for op in prefix for t in _topics_in(op))
 
 
-def _connect_cid(hexbytes):
-    """client identifier (hex, '-' = empty) of a CONNECT given as the hex of its bytes, or None"""
-    b = _unhex(hexbytes)
-    if not b or b[0] >> 4 != 1:
-        return None
-    i = 1
-    while i < len(b) and i <= 4 and b[i] & 0x80:
-        i += 1
-    i += 1                                   # first byte of the variable header
-    if i + 2 > len(b):
-        return None
-    i += 2 + ((b[i] << 8) | b[i + 1]) + 4    # protocol name, level, flags, keep-alive
-    if i + 2 > len(b):
-        return None
-    n = (b[i] << 8) | b[i + 1]
-    cid = b[i + 2:i + 2 + n]
-    return binascii.hexlify(cid).decode() if cid else '-'
-
-
-def overlap_episode(prefix, impl=None, spec=None):
-    """two live connections presented the same client identifier earlier in the episode: the broker keeps
-    both on one shared session (no take-over); the specification leaves everything after that open and what
-    the shared session then does depends on Go map order — model/implementation differences there are notes"""
-    live = {}
-    for op in prefix:
-        w = op.split()
-        if len(w) >= 13 and w[1] in ('first', 'firstp', 'hsrace') and w[3] == 'connect':
-            if w[1] == 'hsrace' and ';' in w and len(w) > w.index(';') + 2:
-                # the other connection's first packet comes first
-                k = w.index(';')
-                bcid = _connect_cid(w[k + 2])
-                if bcid is not None:
-                    if bcid != '-' and bcid in live.values():
-                        return True
-                    live[w[k + 1]] = bcid
-            cid = w[11]
-            if cid != '-' and cid in live.values():
-                return True
-            live[w[2]] = cid
-        elif w[1:2] == ['close'] and len(w) > 2:
-            live.pop(w[2], None)
-        elif w[1:2] == ['pkt'] and len(w) > 3 and w[3] == 'disconnect':
-            live.pop(w[2], None)
-    return False
-
-
 BROKER_ASSUMPTIONS = [
     "one event = one atomic step (one processor goroutine per connection; trie accesses under smu/rmu; packet writes under wmu) — the schedule quantifier is represented only by the order of events",
     "the correspondence serialises events behind PINGREQ/PINGRESP barriers on every live connection",
@@ -305,13 +259,14 @@ BROKER_ASSUMPTIONS = [
     "`unsubrace` events: the other connection's PUBLISH is written the moment the harness's client of the unsubscribing connection has parsed the UNSUBACK, with no barrier in between, and the line is observed behind barriers on the publisher, then the unsubscriber, then everybody else; a broker that acknowledges before it has removed the filters is caught dynamically only if its removal loop outlasts the harness's reaction time (0.1-0.5 ms against 5-10 ms for the generated lists of 600-1000 filters of 70-100 levels) - the statement order itself is a regenerated fact (C07_ack_follows_effects)",
     "`srvsubrepub` callbacks call Server.Publish (same payload, QoS 0, RETAIN 0) from inside the callback; the Lean driver performs the nested publish right behind the delivery on the state after the step (such a publish draws no identifier and retains nothing, so it commutes with the rest of the step), follows at most 4 nested levels (the generators keep targets disjoint from the republishing callbacks' filters), leaves the line open when a republishing callback holds several matching subscriptions, and republishes nothing for copies on topics beginning with '$' (which only the reference broker hands to a callback; such copies are not compared)",
     "`hsrace` events: while one is in progress the harness's authenticator holds every user name beginning with \"slow\" inside Authenticate (it signals the entry; released when the other connection has been observed to the end, at the latest after 5 s); the driver takes the other connection's first packet before the held CONNECT - the order in which the unchanged code completes them - and that the two handshakes share no state is what the event tests, not an assumption",
+    "a CONNECT that carries the client identifier of a live connection ends that connection first (MQTT-3.1.4-2): its CLOSED, its will and the new connection's CONNACK are one output line; the broker finishes the old connection's teardown before it answers (Server.connectMu), so the line is complete when the CONNACK has been read and the barriers on the other connections have returned",
     "the identifier generated for a client that connects without one (auto- + 96 random bits from crypto/rand) never coincides with a client-supplied identifier or with another generated one: the model represents it by a byte string outside the set of acceptable supplied identifiers",
 ]
 
 
 def mk(pid, module, runs, classes=None):
     register(Prop(pid, module, ['broker'], runs=runs, oracle=broker_oracle, nontrivial=broker_nontrivial,
-                  spec_total=False, unspecified=overlap_episode,
+                  spec_total=False,
                   classes=dict({'empty_level': has_empty_level}, **(classes or {})),
                   assumptions=BROKER_ASSUMPTIONS, trusted=COMMON_TRUSTED + [
                       "regenerated facts: topics.MaxQosAllowed, message.SupportedVersions, Ackqueue tables"]))
@@ -339,7 +294,6 @@ register(Prop('C05', 'Mqtt.Properties.C05', ['broker'],
               runs=[Run('broker-iso', quick=20000, thorough=100000, seeds_thorough=8),
                     Run('broker-iso-sweep', quick=2500, thorough=30000, seeds_thorough=2)],
               oracle=broker_oracle, nontrivial=broker_nontrivial, spec_total=False,
-              unspecified=overlap_episode,
               classes={'empty_level': has_empty_level},
               assumptions=C05_ASSUMPTIONS, trusted=COMMON_TRUSTED + [
                   "regenerated facts: framing limits (l > 4, cnt from 2 to 5), ring size, deferred recover in handleConnection/processor, non-fatal processIncoming errors do not end the processor, packet-type and codec tables",
